@@ -132,7 +132,9 @@ OnCalcH(e) ==
         d4 == IF e.fixt /\ e.dt > e.tstep + 2 /\ ~e.first /\ ~e.resume THEN d3 \cup {"fixed_step_cap"} ELSE d3
         d5 == IF s.inited /\ e.idx0 # s.swIdx THEN d4 \cup {"switch_pointer_continuity"} ELSE d4
         ph2 == CASE s.ph \in {"adv", "rej", "begin"} -> "top" [] OTHER -> s.ph
-    IN [s EXCEPT !.ph = ph2, !.swIdx = e.idx, !.nxt = (IF e.has_next THEN e.nxt ELSE NoT), !.drift = d5]
+        (* C04 / C20: with a fixed step the configured step is the one in use *)
+        v1 == IF e.fixed_is_configured THEN s.viol ELSE s.viol \cup {"FixedStepIsConfiguredStep"}
+    IN [s EXCEPT !.ph = ph2, !.swIdx = e.idx, !.nxt = (IF e.has_next THEN e.nxt ELSE NoT), !.drift = d5, !.viol = v1]
 
 DueT(i, tf) == IsDue(Tm(i).en, Tm(i).tau, Zero, tf)
 AtZero(i) == Tm(i).en /\ Tm(i).tau = Zero
